@@ -254,6 +254,21 @@ def component_corpus():
        E2 + ".decl o1.in1.p(x:number)\n.decl o1.in1.q(x:number)\n.decl o1.in2.p(x:number)\n.decl o1.in2.q(x:number)\n.decl o1.r(x:number)\no1.in1.q(x) :- o1.in1.p(x), x != 1.\no1.in2.q(x) :- o1.in2.p(x), x != 1.\no1.in1.p(x) :- o1.r(x).\no1.in2.p(x) :- o1.in1.q(x).\no1.r(x) :- e(x,_).\n.decl o(x:number)\n.output o\no(x) :- o1.in2.q(x).\n")
     PC("comp_param_component", E2 + ".comp Imp1 {\n.decl f(x:number,y:number)\nf(x,y) :- e(x,y).\n}\n.comp Imp2 {\n.decl f(x:number,y:number)\nf(x,y) :- e(y,x).\n}\n.comp User<I> {\n.init impl = I\n.decl g(x:number)\ng(x) :- impl.f(x,x).\ng(y) :- g(x), impl.f(x,y).\n}\n.init u1 = User<Imp1>\n.init u2 = User<Imp2>\n.decl o(x:number)\n.output o\no(x) :- u1.g(x), !u2.g(x).\n",
        E2 + ".decl u1.impl.f(x:number,y:number)\nu1.impl.f(x,y) :- e(x,y).\n.decl u1.g(x:number)\nu1.g(x) :- u1.impl.f(x,x).\nu1.g(y) :- u1.g(x), u1.impl.f(x,y).\n.decl u2.impl.f(x:number,y:number)\nu2.impl.f(x,y) :- e(y,x).\n.decl u2.g(x:number)\nu2.g(x) :- u2.impl.f(x,x).\nu2.g(y) :- u2.g(x), u2.impl.f(x,y).\n.decl o(x:number)\n.output o\no(x) :- u1.g(x), !u2.g(x).\n")
+    SRC = ".comp S1 {\n.decl r(x:number)\nr(x) :- e(x,_).\n}\n.comp S2 {\n.decl r(x:number)\nr(y) :- e(_,y).\n}\n"
+    PAIR = ".comp Pair<A, B> {\n.init first = A\n.init second = B\n.decl fst(x:number)\n.decl snd(x:number)\nfst(x) :- first.r(x).\nsnd(x) :- second.r(x), !first.r(x).\n}\n"
+
+    def flat_pair(pfx, a, b):
+        ra = "r(x) :- e(x,_)." if a == 1 else "r(y) :- e(_,y)."
+        rb = "r(x) :- e(x,_)." if b == 1 else "r(y) :- e(_,y)."
+        return (".decl %sfirst.r(x:number)\n%sfirst.%s\n.decl %ssecond.r(x:number)\n%ssecond.%s\n.decl %sfst(x:number)\n.decl %ssnd(x:number)\n"
+                "%sfst(x) :- %sfirst.r(x).\n%ssnd(x) :- %ssecond.r(x), !%sfirst.r(x).\n" % (pfx, pfx, ra, pfx, pfx, rb, pfx, pfx, pfx, pfx, pfx, pfx, pfx))
+    OUT = ".decl o1(x:number)\n.decl o2(x:number)\n.output o1\n.output o2\n"
+    PC("comp_param_permuted_inherit", E2 + SRC + PAIR + ".comp Flip<A, B> : Pair<B, A> { }\n.init p = Flip<S1, S2>\n" + OUT + "o1(x) :- p.fst(x).\no2(x) :- p.snd(x).\n",
+       E2 + flat_pair("p.", 2, 1) + OUT + "o1(x) :- p.fst(x).\no2(x) :- p.snd(x).\n")
+    PC("comp_param_permuted_nested", E2 + SRC + PAIR + ".comp Outer<A, B> {\n.init q = Pair<B, A>\n}\n.init o = Outer<S1, S2>\n" + OUT + "o1(x) :- o.q.fst(x).\no2(x) :- o.q.snd(x).\n",
+       E2 + flat_pair("o.q.", 2, 1) + OUT + "o1(x) :- o.q.fst(x).\no2(x) :- o.q.snd(x).\n")
+    PC("comp_param_same_order", E2 + SRC + PAIR + ".comp Keep<A, B> : Pair<A, B> { }\n.init k = Keep<S1, S2>\n" + OUT + "o1(x) :- k.fst(x).\no2(x) :- k.snd(x).\n",
+       E2 + flat_pair("k.", 1, 2) + OUT + "o1(x) :- k.fst(x).\no2(x) :- k.snd(x).\n")
     PC("comp_output_inside", E2 + ".comp C {\n.decl p(x:number,y:number)\n.output p\np(x,y) :- e(x,y), x < y.\n}\n.init c1 = C\n",
        E2 + ".decl c1.p(x:number,y:number)\n.output c1.p\nc1.p(x,y) :- e(x,y), x < y.\n")
     PC("comp_inherit_param_chain", E2 + ".comp Base<T> {\n.decl b(x:T)\n.decl d(x:T)\nd(x) :- b(x).\n}\n.comp Mid<T> : Base<T> {\n.decl m(x:T,y:T)\nm(x,y) :- d(x), d(y), x < y.\n}\n.comp Top : Mid<number> {\nb(x) :- e(x,_).\n}\n.init t = Top\n.decl o(x:number,y:number)\n.output o\no(x,y) :- t.m(x,y).\n",
